@@ -352,6 +352,8 @@ class Builder:
             f["dflt"] = dn
             pos = self.integer(0, len(f["c"]))
             f["c"].insert(pos, self.varnode(dn))
+            if self.chance(30):
+                f["c"].insert(self.integer(0, len(f["c"])), self.varnode(dn))  # the default content printed twice
         inside = extra.pop("_inside") if extra is not None else False
         inner = f
         if extra is not None and (inside or wrapper is None):
